@@ -194,7 +194,13 @@ func roundTrip(fset *gotoken.FileSet, gf *goast.File) rtOutcome {
 				fail("header-diff:"+dk, detail)
 			}
 			for _, c := range culprits {
-				fail("header-diff:"+dk+":"+c, detail)
+				if strings.HasSuffix(c, "(empty)") {
+					// nil-vs-empty of one slice field is ONE root cause wherever the field occurs:
+					// the declaration kind is not part of the signature
+					fail("header-diff:"+c, detail)
+				} else {
+					fail("header-diff:"+dk+":"+c, detail)
+				}
 			}
 		}
 	}
